@@ -41,6 +41,34 @@ __all__ = [
 ]
 
 
+def _select(
+    mask: torch.Tensor, old_v: VariableValue, cur_v: VariableValue
+) -> VariableValue:
+    """
+    Element-wise `old_v` where `mask` is True, `cur_v` elsewhere.
+
+    This is a selection and not an arithmetic blend (`old_v * mask + cur_v * ~mask`), so that a
+    non-finite value on one side never contaminates the elements taken from the other side.
+    """
+    if isinstance(old_v, WeightedTensor) or isinstance(cur_v, WeightedTensor):
+        old_v = old_v if isinstance(old_v, WeightedTensor) else WeightedTensor(old_v)
+        cur_v = cur_v if isinstance(cur_v, WeightedTensor) else WeightedTensor(cur_v)
+        if (
+            old_v.weight is not None
+            and cur_v.weight is not None
+            and not torch.equal(old_v.weight, cur_v.weight)
+        ):
+            raise NotImplementedError(
+                "Partial reversion of weighted tensors is not implemented when their weights differ."
+            )
+        value = torch.where(mask, old_v.value, cur_v.value)
+        weight = old_v.weight if old_v.weight is not None else cur_v.weight
+        if weight is not None:
+            weight = weight.expand(value.shape).clone()
+        return WeightedTensor(value, weight)
+    return torch.where(mask, old_v, cur_v)
+
+
 class StateForkType(Enum):
     """
     The strategy used to cache forked values in :class:`.State`.
@@ -558,7 +586,6 @@ class State(MutableMapping):
             self._last_fork = None
             return
         to_revert = subset.to(torch.bool)
-        to_keep = ~to_revert
         for k, old_v in self._last_fork.items():
             cur_v = self._values[k]
             if old_v is None or cur_v is None:
@@ -567,13 +594,11 @@ class State(MutableMapping):
                 assert (
                     old_v.shape == cur_v.shape
                 ), f"Bad shapes for {k}: {old_v.shape} != {cur_v.shape}"
+                mask = to_revert
                 if right_broadcasting:
                     add_ndim = max(old_v.ndim - to_revert.ndim, 0)
-                    self._values[k] = old_v * unsqueeze_right(
-                        to_revert, ndim=add_ndim
-                    ) + cur_v * unsqueeze_right(to_keep, ndim=add_ndim)
-                else:
-                    self._values[k] = old_v * to_revert + cur_v * to_keep
+                    mask = unsqueeze_right(to_revert, ndim=add_ndim)
+                self._values[k] = _select(mask, old_v, cur_v)
         self._last_fork = None
 
     def to_device(self, device: torch.device) -> None:
